@@ -458,6 +458,7 @@ func (it *Interp) setupIntrinsics() {
 				lim := it.tb.RealC(it.cfg.RealLimit)
 				it.addPC(it.tb.Cmp(token.LEQ, v, lim, true))
 				it.addPC(it.tb.Cmp(token.GEQ, v, it.tb.Neg(lim), true))
+				it.setRealRange(v, ratOf(-it.cfg.RealLimit), ratOf(it.cfg.RealLimit))
 				return v
 			}
 			meta := "f64"
@@ -495,9 +496,16 @@ func (it *Interp) setupIntrinsics() {
 		x, y := a[0].(*Term), a[1].(*Term)
 		label := cstr(it, a[2])
 		tb := it.tb
+		it.poisonGuard(x, "an assertion")
+		it.poisonGuard(y, "an assertion")
 		if it.mode == Math {
 			// exact real equality first (polynomial identities are decided by normalisation)
 			if x == y {
+				return nil
+			}
+			if it.nearDecide(x, y) {
+				it.rep.AssertsSeen[label]++
+				it.rep.AssertSyntactic++
 				return nil
 			}
 			if it.quietCheck(tb.Not(tb.Eq(x, y))) == Unsat {
